@@ -245,6 +245,9 @@ def encode(input, errors="strict", encoding=None):
     consumed = len(input)
     if encoding is None:
         encoding = detectencoding_unicode(input, True)[0]
+        if encoding is None:
+            # the charset rule will never be completed
+            encoding = "utf-8"
         if encoding.replace("_", "-").lower() == "utf-8-sig":
             input = _fixencoding(input, "utf-8", True)
     else:
@@ -409,6 +412,9 @@ class IncrementalEncoder(codecs.IncrementalEncoder):
             else:
                 # Use encoding from the @charset declaration
                 self.encoding = detectencoding_unicode(input, final)[0]
+                if self.encoding is None and final:
+                    # the charset rule will never be completed
+                    self.encoding = "utf-8"
             if self.encoding is not None:
                 if self.encoding == "css":
                     raise ValueError("css not allowed as encoding name")
